@@ -17,6 +17,7 @@ import (
 type phiLeaf struct {
 	v    ssa.Value
 	from *ssa.BasicBlock
+	to   *ssa.BasicBlock // the block of the phi the value enters
 }
 
 func headerLeaves(l *ssaLoop, phi *ssa.Phi) []phiLeaf {
@@ -37,7 +38,7 @@ func headerLeaves(l *ssaLoop, phi *ssa.Phi) []phiLeaf {
 				}
 				continue
 			}
-			out = append(out, phiLeaf{e, pred})
+			out = append(out, phiLeaf{e, pred, blk})
 		}
 	}
 	walk(phi, 0)
